@@ -84,7 +84,7 @@ def build_units(world):
             t.variant = (t.variant + "," if t.variant else "") + "line%d" % t.func.node.lineno
         # rules producing Interval values serve C07 through the auxiliary invariant
         units[u.name] = u
-    for mod in ("contracts.extra", "contracts.c19", "contracts.toplevel", "contracts.c13", "contracts.c15", "contracts.c16", "contracts.c17", "contracts.c11", "contracts.bridge", "contracts.edge", "contracts.c12"):
+    for mod in ("contracts.extra", "contracts.c19", "contracts.toplevel", "contracts.c13", "contracts.c15", "contracts.c16", "contracts.c17", "contracts.c11", "contracts.c10", "contracts.bridge", "contracts.edge", "contracts.c12"):
         try:
             m = __import__(mod, fromlist=["units"])
         except ImportError:
